@@ -635,7 +635,8 @@ struct G
         d.name = n;
         if (kind == 0) {
             int t = tag();
-            d.tags = {t};
+            const int t2 = tag();  // a second tag in the last statement: the whole body must arrive, not just its beginning
+            d.tags = {t, t2};
             // parameter names deliberately reuse global names when shadowing is on
             std::string a = cfg.shadowing && rng.chance(0.5) ? "gi0" : "a";
             std::string b = cfg.shadowing && rng.chance(0.3) ? "q" : "b";
@@ -644,12 +645,12 @@ struct G
             os << "int " << n << "(int " << a << ", int " << b << ") {\n";
             os << "  int r = " << t << ";\n";
             switch (rng.below(4)) {
-            case 0: os << "  if (" << a << " > " << b << ") return " << a << " + r;\n  return " << b << ";\n"; break;
+            case 0: os << "  if (" << a << " > " << b << ") return " << a << " + r;\n  return " << b << " + " << t2 << ";\n"; break;
             case 1:
-                os << "  while (r > " << a << ") { r = r - 1; if (r == " << b << ") return r; }\n  return r;\n";
+                os << "  while (r > " << a << ") { r = r - 1; if (r == " << b << ") return r; }\n  return r + " << t2 << ";\n";
                 break;
             case 2:
-                os << "  for (r = 0; r < 3; r++) { " << a << " += r; }\n  return " << a << " * " << b << ";\n";
+                os << "  for (r = 0; r < 3; r++) { " << a << " += r; }\n  return " << a << " * " << b << " + " << t2 << ";\n";
                 break;
             default:
                 if (!sc.arrays.empty() && cfg.quantifiers) {
@@ -657,9 +658,9 @@ struct G
                     if (q == a || q == b)
                         q = "qq";
                     os << "  for (" << q << " : int[0,3]) { r += " << sc.arrays[0] << "[" << q << "]; }\n  return r + " << a
-                       << ";\n";
+                       << " + " << t2 << ";\n";
                 } else
-                    os << "  do { r--; } while (r > " << a << ");\n  return r;\n";
+                    os << "  do { r--; } while (r > " << a << ");\n  return r + " << t2 << ";\n";
                 break;
             }
             os << "}";
@@ -671,6 +672,11 @@ struct G
             os << "void " << n << "(int &" << r << ") {\n  " << r << " = " << t << ";\n";
             if (rng.chance(0.5))
                 os << "  if (" << r << " > 3) { " << r << "--; } else " << r << "++;\n";
+            {
+                const int t2 = tag();
+                d.tags.push_back(t2);
+                os << "  " << r << " += " << t2 << ";\n";
+            }
             os << "}";
             sc.vfuncs.push_back(n);
         } else {
